@@ -18,7 +18,7 @@ import ast
 from sa import AnalysisError
 from sa.astutil import unparse, enclosing, in_block
 from sa.cfg import build_cfg, EXC
-from sa.dataflow import Provenance, ControlDependence, ReachingDefs
+from sa.dataflow import Provenance, ControlDependence, ReachingDefs, target_names
 from sa.effects import get_effects, fmt_path, is_fresh, EffectAnalysis
 from sa.loader import walk_shallow, walk_expr_shallow, Project
 from sa.resolve import get_resolver
@@ -489,6 +489,51 @@ def rule_pu_fresh(ctx):
                         problems.append("item %s of the default sections is the module-level object `%s`" % (unparse(k), x.id))
         elif not shared:
             pass
+    # elements of a module-level table (templates) that flow into the result without a copy: names bound by iterating over a
+    # module-level object (or over such a name) may be iterated again, read, keyed on or deep-copied - not stored
+    glob_names = set(fd.module.globals)
+    elem = set()
+
+    def iter_base(e):
+        while True:
+            if isinstance(e, ast.Call) and isinstance(e.func, ast.Attribute) and e.func.attr in ("items", "values", "keys") and not e.args:
+                e = e.func.value
+            elif isinstance(e, ast.Subscript):
+                e = e.value
+            elif isinstance(e, ast.Call) and isinstance(e.func, ast.Name) and e.func.id in ("enumerate", "zip", "reversed", "sorted", "list", "tuple", "iter") and e.args:
+                e = e.args[0]
+            else:
+                return e.id if isinstance(e, ast.Name) else None
+    for _ in range(4):
+        for sub in ast.walk(fd.node):
+            gens = sub.generators if isinstance(sub, (ast.ListComp, ast.SetComp, ast.DictComp, ast.GeneratorExp)) else (
+                [sub] if isinstance(sub, ast.For) else [])
+            for g in gens:
+                b = iter_base(g.iter)
+                if b is not None and (b in glob_names or b in elem):
+                    elem |= set(target_names(g.target))
+    for x in ast.walk(fd.node):
+        if not (isinstance(x, ast.Name) and x.id in elem and isinstance(x.ctx, ast.Load)):
+            continue
+        ok_use = False
+        cur, child = getattr(x, "_parent", None), x
+        if isinstance(cur, ast.Attribute) or (isinstance(cur, ast.Subscript) and cur.value is x):
+            ok_use = True
+        if isinstance(cur, ast.DictComp) and cur.key is x:
+            ok_use = True
+        if isinstance(cur, ast.Compare) or isinstance(cur, ast.JoinedStr) or isinstance(cur, ast.FormattedValue):
+            ok_use = True
+        while cur is not None and cur is not fd.node and not ok_use:
+            if isinstance(cur, (ast.comprehension, ast.For)) and (cur.iter is child or any(child is y for y in ast.walk(cur.iter))) and child is not getattr(cur, "target", None):
+                ok_use = True
+            if isinstance(cur, ast.Call) and ast.unparse(cur.func).split(".")[-1] in ("deepcopy", "HeaderItem", "CurveItem", "len", "str", "isinstance", "repr"):
+                ok_use = True
+            if isinstance(cur, ast.stmt):
+                break
+            child, cur = cur, getattr(cur, "_parent", None)
+        if not ok_use:
+            problems.append("`%s` - an element of a module-level table - is put into the default sections without a copy (`%s`)"
+                            % (x.id, unparse(getattr(x, "_parent", x))))
     if shared:
         problems.append("get_default_items returns (an alias of) %s" % ", ".join(fmt_path(x) for x in shared))
     ctx.check(not problems, "PU.FRESH", "defaults.get_default_items#fresh", fd, fd.node,
